@@ -22,7 +22,7 @@ RULE = (
     "model function at the row's states/choices/period/params (1e-9, booleans exact); row (t,i) belongs to agent i "
     "(period-0 rows equal the i-th supplied initial state, consecutive rows of i obey the law of motion). In half of the cases a TWIN model (same names and signatures, different table contents and parameter values) is simulated first in the same process, so that state leaking between models is exposed. "
     "One case in 16 (12 in the thorough tier) is a HUGE panel: the agents are expanded deterministically so that T*N exceeds 2**15 (or 2**16) rows by a remainder of 1-3000*T rows; the structural predicate runs on the whole frame, the row-level oracles on the first/last agents, the agents next to multiples of 2**15 rows and a regular stride. "
-    "Non-trivial: >=2 agents with pairwise distinct initial states, T>=2 and >=1 additional target (huge panels: >=2 distinct selected agents and >=1 target); distinct by "
+    "One case in 6 requests only targets that depend on the period alone (report_age(_period), report_wage(report_age)). Non-trivial: >=2 agents with pairwise distinct initial states, T>=2 and >=1 additional target (huge panels: >=2 distinct selected agents and >=1 target); distinct by "
     "case digest."
 )
 ASSUMPTIONS = [
@@ -59,6 +59,9 @@ def cases(draw, tier="quick"):
         "twin_first": draw(st.booleans()),
         "target_order": draw(st.permutations(list(range(12)))),
         "report_fn": draw(st.booleans()),
+        # 1 case in 6: the requested targets depend on the period only (directly and through one
+        # another), nothing else is requested
+        "period_only_targets": draw(st.integers(0, 5)) == 0,
     }
 
 
@@ -117,12 +120,25 @@ def add_report_function(spec):
     return new
 
 
+def add_period_functions(spec):
+    """Model functions of the period only (an age and a quantity derived from it)."""
+    new = spec.copy()
+    new.functions["report_age"] = {"args": ["_period"], "body": "18.0 + 2.0 * _period"}
+    new.functions["report_wage"] = {"args": ["report_age"], "body": "1.0 + 0.03 * (report_age - 18.0) ** 2"}
+    new.params["report_age"] = {}
+    new.params["report_wage"] = {}
+    return new
+
+
 def check(case):
     import pandas as pd
 
     if case.get("report_fn"):
         case = dict(case)
         case["spec"] = add_report_function(Spec.from_json(case["spec"])).to_json()
+    if case.get("period_only_targets"):
+        case = dict(case)
+        case["spec"] = add_period_functions(Spec.from_json(case["spec"])).to_json()
     spec, ref, skip = prepare(case)
     dg = case_digest(case)
     if skip:
@@ -146,6 +162,8 @@ def check(case):
             targets.append("report_total")
         order = case.get("target_order", list(range(12)))
         targets = [t for _, t in sorted(zip(order, targets))]
+    if case.get("period_only_targets"):
+        targets = [["report_age"], ["report_wage", "report_age"], ["report_wage"]][case["seed"] % 3]
     classes = model_classes(spec, ref)
     if case.get("twin_first"):
         # history: first simulate a twin model (same names and signatures, other table contents
@@ -162,6 +180,8 @@ def check(case):
     fns = simcheck.get_functions(spec, targets=("solve_and_simulate",))
     df = simcheck.simulate(fns, spec, init, case["seed"], additional_targets=targets)
     classes.append("targets_none" if targets is None else f"targets_{min(len(targets), 3)}")
+    if case.get("period_only_targets"):
+        classes.append("targets_depend_on_period_only")
     classes.append(f"agents_{'1' if N == 1 else 'n'}")
     classes.append(f"periods_{'1' if T == 1 else 'n'}")
     msgs = []
